@@ -30,6 +30,9 @@ type Baseline struct {
 	Claimed map[string]map[string]string `json:"claimed"`
 	// property -> function display key -> vacuity status on the unchanged tree
 	Vacuity map[string]map[string]string `json:"vacuity"`
+	// property -> obligation name -> status: obligations the tool generates but could not discharge
+	// on the unchanged tree (never counted as proved, never reported as violations)
+	Unclaimed map[string]map[string]string `json:"unclaimed"`
 }
 
 type Finding struct {
@@ -211,6 +214,7 @@ func cmdCheck(args []string) int {
 	notesSet := map[string]bool{}
 	vac := map[string]string{}
 	newBaseline := map[string]string{}
+	newUnclaimed := map[string]string{}
 	seen := map[string]bool{}
 	for _, r := range results {
 		fe := map[string]interface{}{"function": r.Display, "paths": r.Paths, "vacuity": r.Vacuity, "obligations": len(r.Obligations)}
@@ -246,8 +250,24 @@ func cmdCheck(args []string) int {
 		for _, ob := range r.Obligations {
 			seen[ob.Name] = true
 			_, isClaimed := claimed[ob.Name]
+			if isClaimed && ob.Status == "undecided" && ob.File != "" {
+				// one retry at 4x the timeout before an undecided claimed obligation is reported
+				if script, err := os.ReadFile(ob.File); err == nil {
+					r := Solve(string(script), filepath.Dir(ob.File), sanitize(ob.Name)+".retry", 4*timeout)
+					if r.Status == "unsat" {
+						ob.Status, ob.Solver, ob.Seconds = "discharged", r.Solver+"(retry)", r.Seconds
+					} else if r.Status == "sat" {
+						ob.Status, ob.Solver, ob.Model = "refuted", r.Solver, r.Model
+					}
+				}
+			}
 			if ob.Status == "discharged" {
-				newBaseline[ob.Name] = "discharged"
+				// claim only what discharges well under the timeout (no alarms from solver jitter)
+				if ob.Trivial || ob.Seconds <= float64(timeout)*0.3 {
+					newBaseline[ob.Name] = "discharged"
+				} else {
+					newUnclaimed[ob.Name] = fmt.Sprintf("discharged in %.1fs: too close to the timeout to be claimed", ob.Seconds)
+				}
 			}
 			if ob.Solver != "" && ob.Solver != "syntactic" {
 				solverS += ob.Seconds
@@ -272,8 +292,10 @@ func cmdCheck(args []string) int {
 				fmt.Printf("KNOWN-FINDING: property=%s %s (%s)\n", id, ob.Name, f.What)
 				continue
 			}
+			newUnclaimed[ob.Name] = ob.Status
 			inClaimedClass := classTotal[classOf(ob.Name)] > 0
-			if isClaimed || (inClaimedClass && !*updateBaseline) {
+			_, knownUnclaimed := baseline.Unclaimed[id][ob.Name]
+			if isClaimed || (inClaimedClass && !knownUnclaimed && !*updateBaseline) {
 				detail := fmt.Sprintf("status=%s solver=%s vc=%s\nmodel/outputs:\n%s", ob.Status, ob.Solver, ob.File, obOutputs(ob))
 				reason := "obligation discharged on the unchanged tree now fails"
 				if !isClaimed {
@@ -318,6 +340,10 @@ func cmdCheck(args []string) int {
 	if *updateBaseline {
 		baseline.Claimed[id] = newBaseline
 		baseline.Vacuity[id] = vac
+		if baseline.Unclaimed == nil {
+			baseline.Unclaimed = map[string]map[string]string{}
+		}
+		baseline.Unclaimed[id] = newUnclaimed
 		os.MkdirAll(filepath.Join(verifRoot, "baseline"), 0o755)
 		data, _ := json.MarshalIndent(baseline, "", " ")
 		os.WriteFile(filepath.Join(verifRoot, "baseline", "obligations.json"), data, 0o644)
